@@ -125,7 +125,7 @@ fn main() {
                         let typed = match aelys_sema::TypeInference::infer_program_with_imports(main_stmts, src.clone(), aliases.clone(), known) {
                             Ok(t) => t, Err(e) => { stage(idx, "render-infer"); let _ = e.iter().map(|x| format!("{}", x)).collect::<Vec<_>>().join("\n"); return "err:infer".into() } };
                         stage(idx, "optimize");
-                        let mut optimizer = Optimizer::new(opt_level(if idx % 2 == 0 { 2 } else { 3 }));
+                        let mut optimizer = Optimizer::new(opt_level((idx % 4) as u32)  /* every level: some diagnostics are only reachable when the optimizer leaves the code in */);
                         let typed = optimizer.optimize(typed);
                         stage(idx, "air");
                         {
